@@ -1,4 +1,5 @@
 import Feox.Props.C05
+import Feox.Fmt.Space
 import Feox.Fmt.Commit
 /-!
 # C05 (continued) — released space is reusable, on the bytes
